@@ -19,7 +19,7 @@ func init() {
 		LevelText:   "Crash points are a runtime quantity; enumerating them is fault injection, a different technique family. Decided for all paths are ordering and ownership clauses without which no crash point can recover: log bytes are written before their index entries and a failed log write leaves the index untouched; the two checkpoint files are only ever replaced atomically; segment replacement closes both segments before the first rename, renames log then index, stops at the first error and re-derives the index afterwards; every kind of file the package can create is handled by the recovery scan (loaded, removed, or ignored with a reason); the epoch cache is trimmed to the log after open and before anything runs; truncate and the clean swap hold the log lock throughout.",
 		LevelNote:   "Trusted: go/ssa; natefinch/atomic's rename-based replacement; process-crash model (the OS keeps what was written).",
 		DesignRef:   "DESIGN.md §4 C05",
-		Explanation: "R05.1 log-then-index, R05.2 atomic checkpoints, R05.3 Replace ordering, R05.4 recovery exhaustiveness over file kinds, R05.5 epoch cache trimmed after open, R05.6 lock regions. NOT decided: the state reached from each individual crash point; index/log agreement after a torn write; the two-rename window of Replace.",
+		Explanation: "R05.1 log-then-index, R05.2 atomic checkpoints, R05.3 Replace ordering, R05.4 recovery exhaustiveness over file kinds, R05.5 epoch cache trimmed after open, R05.6 lock regions, R05.7 crash-safe ordering (log removed before index, epoch cache trimmed after the log, repeatable Delete), R05.8 a log ahead of its index is repaired at open, R02.8 (shared) epoch cache trims; R05.5 also fixes the shapes of open(). NOT decided: the state reached from each individual crash point; index/log agreement after a torn write; the two-rename window of Replace.",
 	})
 }
 
@@ -70,6 +70,32 @@ func runC05(c *eng.Ctx) {
 		case cl + "(*segment).write":
 			ok := eng.BinComm(token.ADD, eng.Load(posF, nil), eng.AnyV)(st.Val)
 			c.Check(ok, "segment.position advances by the bytes written", c.Pos(st), "position += n", "segment.write sets the position to "+eng.Describe(st.Val))
+		case cl + "(*segment).setupIndex":
+			// recovery may cut a partial / un-indexed tail off the log: the position then is the size the file was truncated to
+			ok := false
+			for _, tr := range eng.CallsIn(a.Fn, "os.File.Truncate") {
+				args := eng.AllArgs(tr.Common())
+				if len(args) == 2 && (args[1] == st.Val || eng.Strip(args[1]) == eng.Strip(st.Val)) {
+					if g, _ := eng.PrecededBy(a.Fn, st, func(x ssa.Instruction) bool { return x == tr.(ssa.Instruction) }); g {
+						ok = true
+					}
+				}
+			}
+			if !ok {
+				// once the log has been reconciled with the index (R05.8: position compared with the indexed end on every path to
+				// this store, repaired where it was ahead), the indexed end IS the file size: storing it changes nothing
+				isEnd := func(v ssa.Value) bool {
+					v = eng.Strip(v)
+					return eng.Call(-1, cl+"indexedEnd")(v) || eng.BinComm(token.ADD, eng.LoadNamed("Position", nil), eng.LoadNamed("Size", nil))(v)
+				}
+				if isEnd(st.Val) {
+					cmp := append(eng.CmpEdges(a.Fn, eng.Load(posF, nil), isEnd, eng.GT), eng.CmpEdges(a.Fn, eng.Load(posF, nil), isEnd, eng.LE)...)
+					if g, _ := eng.GuardedBy(a.Fn, st, cmp); g && len(cmp) > 0 {
+						ok = true
+					}
+				}
+			}
+			c.Check(ok, "segment.position follows the size the log was truncated to at recovery", c.Pos(st), "log.Truncate(end); position = end", "setupIndex sets the write position to "+eng.Describe(st.Val)+" without truncating the log file to that size: the position no longer is the size of the file that O_APPEND writes to")
 		default:
 			c.Violate("store to segment.position in "+k, c.Pos(st), "the write position is set outside newSegment (file size) and write (+= n): recovery no longer takes the position from the file, so index entries written after a crash can point at the wrong bytes")
 		}
@@ -331,6 +357,40 @@ func runC05(c *eng.Ctx) {
 	ruleEpochCacheShapes(c)
 	c.Floor(9)
 
+	// ---- R05.8 recovery reconciles the log with its index
+	c.Rule("R05.8", "K2")
+	if fn := c.Fn(cl + "(*segment).setupIndex"); fn != nil {
+		// An append writes the log, then the index. A crash in between leaves log bytes the index does not describe: the write
+		// position comes from the file size, the next offset from the index, so the next append re-uses the orphan's offset
+		// and sequential readers deliver both. Recovery has to notice (position beyond the end of the last indexed message
+		// set) and repair (re-index the tail or cut it off) before the segment is used.
+		posF := p.Field(clPkg, "segment", "position")
+		end := func(v ssa.Value) bool {
+			v = eng.Strip(v)
+			if eng.Call(-1, cl+"indexedEnd")(v) {
+				return true
+			}
+			return eng.BinComm(token.ADD, eng.LoadNamed("Position", nil), eng.LoadNamed("Size", nil))(v)
+		}
+		ahead := eng.CmpEdges(fn, eng.Load(posF, nil), end, eng.GT)
+		ok := len(ahead) > 0
+		var w *eng.Witness
+		if ok {
+			q := &eng.PathQuery{Fn: fn, FromEdges: ahead, Target: func(x ssa.Instruction) bool {
+				r, isR := x.(*ssa.Return)
+				if !isR {
+					return false
+				}
+				rv := eng.RetVals(r)
+				return len(rv) == 1 && eng.NilConst(rv[0])
+			}, CutInstr: eng.IsCallTo(cl+"segment.rebuildIndex", "os.File.Truncate")}
+			w = q.Find()
+			ok = w == nil
+		}
+		c.Check(ok, "a log that is ahead of its index is repaired when the segment is opened", p.Pos(fn.Pos()), "position > end of the last indexed message set ⇒ rebuildIndex / truncate before the segment is used", "setupIndex never compares the log's size with the end of the last indexed message set (or can succeed without repairing, path "+w.String()+"): after a crash between the log write and the index write of an append, the next append re-uses the orphan's offset and readers that walk the segment deliver the never-completed message and the acknowledged one under the same offset")
+	}
+	c.Floor(1)
+
 	// ---- R05.7 crash-safe ordering of destructive steps
 	c.Rule("R05.7", "K2")
 	if fn := c.Fn(cl + "(*segment).Delete"); fn != nil {
@@ -357,6 +417,18 @@ func runC05(c *eng.Ctx) {
 			}
 			ok = g
 		}
+		// Delete is retried by the next clean when an earlier attempt failed half way: removing a file that is already gone must
+		// not be an error
+		okRep := true
+		present := eng.BoolEdges(fn, eng.Call(-1, cl+"exists"), true)
+		for _, r := range append(append([]ssa.Instruction{}, rmLog...), rmIdx...) {
+			g, _ := eng.GuardedBy(fn, r, present)
+			tolerant := len(eng.CallsIn(fn, "os.IsNotExist")) > 0
+			if !(g && len(present) > 0) && !tolerant {
+				okRep = false
+			}
+		}
+		c.Check(okRep && len(rmLog)+len(rmIdx) >= 2, "deleting a segment twice is not an error", p.Pos(fn.Pos()), "each os.Remove is guarded by exists() (or tolerates IsNotExist)", "segment.Delete fails when one of its files is already gone: after a deletion that failed half way, every retry by the cleaner fails with ENOENT, retention for that log is stuck and the limits never hold again")
 		c.Check(ok, "a segment's log file is removed before its index", p.Pos(fn.Pos()), "os.Remove(log) precedes os.Remove(index)", "segment.Delete can remove the index while the log file still exists: a crash in between leaves a log without index, which recovery re-opens as a segment whose stored messages are unreachable (an orphan index, by contrast, is cleaned up by open())")
 	}
 	if fn := c.Fn(cl + "(*commitLog).Truncate"); fn != nil {
@@ -382,7 +454,7 @@ func runC05(c *eng.Ctx) {
 		}
 		c.Check(ok, "Truncate trims the epoch cache after the log itself", p.Pos(fn.Pos()), "ClearLatest(offset) is the last destructive step", "Truncate trims (and flushes) the leader epoch cache before the segments are deleted / rewritten (path "+w.String()+"): a crash in between leaves messages in the log whose epoch boundary is gone, and the follower later truncates to the wrong offset")
 	}
-	c.Floor(2)
+	c.Floor(3)
 
 	// ---- R05.6 lock regions
 	c.Rule("R05.6", "K4")
